@@ -44,7 +44,7 @@ def gen_trace(seed, n_calls=45):
     evs = []
     gross = {}
     with ob.installed():
-        rig = BrokerRig(t0, quotes, fee, ob)
+        rig = BrokerRig(t0, quotes, fee, ob, printing=(seed % 4 == 3))       # a quarter of the traces with event printing ON
         now = t0
         created = []
 
@@ -135,12 +135,36 @@ def gen_trace(seed, n_calls=45):
     return dict(id=seed, t0=t0, quote=quotes, fee=fee, ev=[to_json_event(e, rig_quote) for e, rig_quote in _with_quotes(evs, quotes)])
 
 
-def record_calls(ident, t0, quotes, fee, calls):
+def gen_big_trace(seed):
+    """Large volumes, tiny residue: buy N, sell N - r (or the reverse) with N up to 300 000 and r in 1..3, at prices of
+    a dollar or two, so that the totals stay inside the trace specification's 32-bit budget.  What is left is r
+    units: held, valued and marked like any other position (nothing in C02 depends on the size of the trades)."""
+    rng = random.Random(seed * 7919 + 13)
+    t0 = (DAY0 + 3) * 1440 + 870                    # Monday 2020-01-06 14:30: the market is open
+    quotes = dict((a, dict(bid=b, ask=b + rng.choice([2, 10, 26]))) for a, b in ((a, rng.randint(500, 1400)) for a in ASSETS))
+    fee = rng.choice([dict(kind="zero", c=0, t=0), dict(kind="percent", c=1, t=0), dict(kind="percent", c=1, t=1)])
+    r = rng.choice([1, 1, 2, 3])
+    n = rng.randint(100000 * r, 300000)
+    sign = rng.choice([1, 1, -1])
+    a = rng.choice(ASSETS)
+    calls = [dict(op="sub_acct", a=1000000000), dict(op="create", pid="P1"), dict(op="sub_pf", pid="P1", a=1000000000),
+             dict(op="submit", pid="P1", asset=a, qty=sign * n), dict(op="update", t=t0 + 1),
+             dict(op="submit", pid="P1", asset=a, qty=-sign * (n - r)), dict(op="update", t=t0 + 2)]
+    b = rng.randint(500, 1400)
+    calls += [dict(op="price", asset=a, bid=b, ask=b + 4), dict(op="update", t=t0 + 3),
+              dict(op="submit", pid="P1", asset=a, qty=rng.choice([-1, 1]) * rng.randint(1, 5)), dict(op="update", t=t0 + 4),
+              dict(op="update", t=t0 + 1440)]
+    tr = record_calls(seed, t0, quotes, fee, calls, printing=(seed % 3 == 2))
+    tr["big"] = dict(n=n, r=r, sign=sign, asset=a)
+    return tr
+
+
+def record_calls(ident, t0, quotes, fee, calls, printing=False):
     """Drive the real classes with a given call sequence and record the trace (used by --replay)."""
     ob = Observer()
     evs = []
     with ob.installed():
-        rig = BrokerRig(t0, quotes, fee, ob)
+        rig = BrokerRig(t0, quotes, fee, ob, printing=printing)
         for c in calls:
             evs.append(rig.apply(dict(c)))
     return dict(id=ident, t0=t0, quote=quotes, fee=fee,
